@@ -49,7 +49,7 @@ for name in $NAMES; do
     if [ "$name" != "BASELINE" ]; then
         patch="$VERIF/mutants/$name.diff"
         case "$name" in
-            */seeded/*/patch.diff) patch="$name"; name="seeded/$(basename "$(dirname "$name")")"; expected="$(basename "$(dirname "$patch")" | cut -d- -f1)" ;;
+            */seeded/*/patch.diff) patch="$name"; name="seeded/$(basename "$(dirname "$name")")"; expected="$(basename "$(dirname "$patch")" | cut -d- -f1)"; [ -f "$(dirname "$patch")/expected" ] && expected="$(cat "$(dirname "$patch")/expected")" ;;
             *.diff) patch="$name"; name="$(basename "$name" .diff)" ;;
         esac
         if ! git -C "$S/repo" apply "$patch" 2>"$S/apply.err"; then
